@@ -1043,6 +1043,10 @@ class Value(Term):
                 + ", saw "
                 + str(list(disallowed)[0])
             )
+        canonical_type = data_algebra.util.map_type_to_canonical(type(value))
+        if canonical_type is not type(value):
+            # store numpy scalars as the equivalent Python scalar, so the printed constant can be read back
+            value = canonical_type(value)
         self.value = value
         Term.__init__(self)
 
